@@ -30,12 +30,13 @@ func init() {
 			"(K-part-chain) how the periods are constructed, not the calendar arithmetic: the periods are produced backwards from the window's end; each appended period ends at the loop variable `end`, whose first value is the window's End and whose next value is AddDate(0,0,-1) of the very Start stored in the period just appended (consecutive, no gap, no overlap by construction); that Start is StartOf(end, interval) for the function's own interval parameter, replaced by the window's Start exactly when it lies before it; the loop is left only when `end` lies before the window's Start or on a limit that depends only on `last` and the number of periods produced; the periods are reversed before they are stored;",
 			"(K-part-align) a date is attributed by sort.Search(len(periods), i -> !periods[i].End.Before(d)); the result is periods[index].End when index < len(periods) and the zero time otherwise, and no other condition decides it;",
 			"(K-part-dates) StartDates / EndDates append the Start / End of every period, unconditionally and in order;",
-			"(K-partition-whole) no consumer reslices or indexes those lists with constants.",
+			"(K-partition-whole) no consumer reslices or indexes those lists with constants;",
+			"(K-utc) every date the module constructs is a UTC value (time.Date with time.UTC, no ParseInLocation with another location), so that window bounds, period ends and journal dates are comparable instants.",
 		},
 		NotDecided: []string{
 			"the calendar arithmetic itself: StartOf/EndOf (weekday, month, quarter arithmetic), time.AddDate, that `--last n` keeps exactly n periods (the comparison operator of the limit), the correctness of the reversal loop's index arithmetic beyond its shape, dates before the first shown period. A change inside StartOf (seeded change C10-D) is not reported.",
 		},
-		Rules: []Rule{RuleKPartChain, RuleKPartAlign, RuleKPartDates, RuleKPartitionWhole},
+		Rules: []Rule{RuleKPartChain, RuleKPartAlign, RuleKPartDates, RuleKPartitionWhole, RuleKUTC},
 	})
 }
 
